@@ -2,3 +2,7 @@ claim("C01", "runtime monitoring: exhaustive enumeration of civil days against a
       "Every civil day -4712..6000 (thorough; a third of the years in quick) is pushed through the real Epoch constructor and get_date/mjd and compared, with exact float equality, to a day counter that shares no formula with the library; refusal probes around every month end. Held means: held on every day enumerated.",
       "trusts the day-counter oracle (self-checked against 3 JD anchors and datetime after 1582) and CPython float arithmetic",
       "DESIGN.md section 3 C01")
+claim("C16", "runtime monitoring: exhaustive civil-day walk against a day-counter reference model + seeded JDE sampling against the IAU 1982 sidereal-time model",
+      "Weekday, day of year (both directions), fractional year and leap flag are observed on every civil day -4712..6000 (thorough) at three instants of the day and compared with an independent day counter; monotonicity of year() is checked along the recorded day sequence. Sidereal time is observed on 1.6e5 (quick) / 3e6 (thorough) JDE including civil-midnight neighbours against the IAU 1982 expression and the library's own nutation.",
+      "trusts the day-counter oracle and the IAU 1982 GMST expression; in 1582 after the reform both day-of-year numberings the property allows are accepted",
+      "DESIGN.md section 3 C16")
